@@ -21,6 +21,7 @@ FL3 = {'AA': True, 'BC': True, 'CC': True}
 def instances(tier):
     out = []
     out.append(dict(name='perm[r2,BA]', fn='perm_step', args=dict(rank=2, order=['B', 'A']), query_timeout_ms=120000))
+    out.append(dict(name='rename[int-labels]', fn='rename_int', args={}))
     out.append(dict(name='perm[r2,BA,group-assign]', fn='perm_step', args=dict(rank=2, order=['B', 'A'], group=True), query_timeout_ms=120000))
     orders3 = [list(p) for p in itertools.permutations(['A', 'B', 'C'])][1:]
     for o in orders3:
@@ -58,6 +59,35 @@ def perm_create_step(E, order):
                 E.claim_eq('u/kT[%s%s][%d]' % (a, b, i), P2.sys.closure[a, b].potential[i], P1.sys.closure[a, b].potential[i])
     E.claim_eq('total-density', P2.sys.density.total, P1.sys.density.total)
     E.claim('canary', E.eq(P2.omega.data[0, 0, 0], P1.omega.data[0, 0, 0]), canary=(order[0] != 'A'))
+
+
+def rename_int(E):
+    """renaming: the same system with integer type labels in non-natural order ([1,0] with 1=A, 0=B) is wired identically, position by position and by label"""
+    N = 2
+    B1 = build(E, 2, N, closures={'AA': 'PercusYevick', 'AB': 'HyperNettedChain', 'BB': 'MeanSphericalApproximation'}, flags={'BB': True}, diam={'A': 1, 'B': 2})
+    S1 = B1.S
+    lab = {'A': 1, 'B': 0}
+    S2 = pyPRISM.System([1, 0], kT=B1.kT)
+    S2.domain = pyPRISM.Domain(length=N, dr=B1.dr)
+    for t in ('A', 'B'):
+        S2.density[lab[t]] = B1.rho[t]; S2.diameter[lab[t]] = B1.d[t]
+    for a, b in (('A', 'A'), ('A', 'B'), ('B', 'B')):
+        S2.potential[lab[a], lab[b]] = S1.potential[a, b]; S2.closure[lab[a], lab[b]] = S1.closure[a, b]; S2.omega[lab[a], lab[b]] = S1.omega[a, b]
+    P1 = S1.createPRISM(); P2 = S2.createPRISM()
+    E.reachable('rename')
+    for ia, a in enumerate(('A', 'B')):
+        for ib, b in enumerate(('A', 'B')):
+            for j in range(N):
+                E.claim_eq('omega-by-position[%s%s][k%d]' % (a, b, j), P2.omega.data[j, ia, ib], P1.omega.data[j, ia, ib])
+                E.claim_eq('omega-by-label[%s%s][k%d]' % (a, b, j), P2.omega[lab[a], lab[b]][j], P1.omega[a, b][j])
+            E.claim_eq('closure.sigma[%s%s]' % (a, b), P2.sys.closure[lab[a], lab[b]].sigma, P1.sys.closure[a, b].sigma)
+            E.claim_eq('site-density[%s%s]' % (a, b), P2.sys.density.site[lab[a], lab[b]][0], P1.sys.density.site[a, b][0])
+    x = E.arr('x', (N * 4,), default=0.15)
+    for i in range(N):
+        x[i * 4 + 2] = x[i * 4 + 1]
+    y1 = P1.cost(x); y2 = P2.cost(x)
+    for i in range(len(y1)):
+        E.claim_eq('cost[%d]' % i, y2[i], y1[i])
 
 
 def perm_step(E, rank, order, group=False):
